@@ -171,6 +171,7 @@ class Env:
         self.raise_conn_sub = False
         self.raise_msg_sub = False
         self.api_tasks = []
+        self.close_tasks = []
         self._setup_socket()
 
     def _setup_socket(self):
@@ -353,9 +354,16 @@ class Env:
         for op in script:
             k = op[0]
             if k == "open":
+                # discipline (C15 hypothesis): open()/close() are not issued while another close() is in progress
+                for t in self.close_tasks:
+                    if not t.done():
+                        await t
                 self._spawn(self._api_open())
             elif k == "close":
-                self._spawn(self._api_close())
+                for t in self.close_tasks:
+                    if not t.done():
+                        await t
+                self.close_tasks.append(self._spawn(self._api_close()))
             elif k == "reset":
                 self._spawn(self._api_reset())
             elif k == "send":
@@ -408,6 +416,9 @@ class Env:
                     c.peer_eof()
                 elif what == "reset":
                     c.peer_reset()
+                # network events are processed one per loop iteration by a selector loop: task wake-ups
+                # scheduled by one event run before the next event is looked at
+                await asyncio.sleep(0)
             elif k == "subraise":
                 if op[1] == "conn":
                     self.raise_conn_sub = bool(op[2])
